@@ -170,6 +170,10 @@ type phaseOpts struct {
 	firstEmpty bool    // the first download answers 200 with an empty key set
 	ownerFirst bool
 	heldProb   float64 // per caller (gated phases): it arrives held at a yield point inside VerifySignature (arrive-held)
+	// herd (gated phases): EVERY caller arrives held at the same yield point (one of the first three: before the cache
+	// look-up, before / at the entrance of the remote path), and all are let go together - N goroutines leave the same
+	// starting line at once and contend for whatever guards the single flight
+	herd bool
 }
 
 // maxHoldK: a verification that misses the cache passes 6 yield points on its own goroutine (start and end of the spans
@@ -258,6 +262,12 @@ func genPhase(r *rand.Rand, c0, s int, o phaseOpts) phaseSpec {
 		if o.heldProb > 0 && r.Float64() < o.heldProb {
 			heldK[i] = r.IntN(maxHoldK + 1)
 			resumeAt[i] = r.IntN(3) // 0: once everybody has arrived, 1: after the cancellations, 2: after the first release
+		}
+	}
+	if o.herd {
+		k := r.IntN(3)
+		for i := range heldK {
+			heldK[i], resumeAt[i] = k, 0
 		}
 	}
 	resumeAll := func(at int) {
@@ -386,9 +396,15 @@ func genRound(r *rand.Rand, caseIdx int) roundSpec {
 		adv(genPhase(r, c, s2, phaseOpts{mode: "free", n: small()}), true)
 	case "preempt":
 		// callers preempted between two steps of VerifySignature while others arrive, are cancelled, downloads are released
-		adv(genPhase(r, c, start, phaseOpts{mode: "gated", n: small(), bias: "new", heldProb: 0.5, cancelProb: pick(r, 0.0, 0.2), ownerFirst: r.IntN(2) == 0}), true)
+		if r.IntN(2) == 0 {
+			adv(genPhase(r, c, start, phaseOpts{mode: "gated", n: pick(r, 2, 3, 4, 8, 16, 32), bias: "new", herd: true}), true)
+		} else {
+			adv(genPhase(r, c, start, phaseOpts{mode: "gated", n: small(), bias: "new", heldProb: 0.5, cancelProb: pick(r, 0.0, 0.2), ownerFirst: r.IntN(2) == 0}), true)
+		}
 		s2 := next(shapes[start].Name)
-		adv(genPhase(r, c, s2, phaseOpts{mode: "gated", n: n(), bias: pick(r, "new", "cached", "retired"), heldProb: 0.3, cancelProb: pick(r, 0.0, 0.15), firstFault: r.IntN(5) == 0}), true)
+		// (moderate sizes: callers held across the whole phase make every operation of the history concurrent with every
+		// other one, which is what the linearizability checker's cost grows with)
+		adv(genPhase(r, c, s2, phaseOpts{mode: "gated", n: pick(r, 2, 3, 4, 5, 6, 8, 12, 16), bias: pick(r, "new", "cached", "retired"), heldProb: 0.3, cancelProb: pick(r, 0.0, 0.15), firstFault: r.IntN(5) == 0}), true)
 		adv(genPhase(r, c, s2, phaseOpts{mode: "gated", n: small(), heldProb: 0.4}), true)
 	case "rotate":
 		s := start
